@@ -442,6 +442,137 @@ func runC03(c *Ctx) {
 		}
 	}()
 
+	// ---------------- C03.delivery
+	rule = "C03.delivery"
+	c.R.Rule(rule, "every callback call `if f := q.OnX; f != nil { f(...) }` in the receive path is reached whenever OnX is set: from each branch of every test that dominates the call's own nil guard (other than the packet-code dispatch), no success exit is reachable without entering the guarded call or crossing an `OnX == nil` edge, so a shortcut written for another callback or for the logger cannot swallow the packet")
+	func() {
+		type site struct {
+			fn   *ssa.Function
+			call ssa.CallInstruction
+			o    string
+		}
+		cbField := func(v ssa.Value) string {
+			o := core.FieldOrigin(v, 0)
+			if strings.HasPrefix(o, "Query.On") && o != "Query.OnInput" {
+				return o
+			}
+			return ""
+		}
+		n := 0
+		for _, fn := range p.Funcs() {
+			if fn.Pkg == nil || fn.Pkg.Pkg.Path() != core.PkgCh || fn.Blocks == nil {
+				continue
+			}
+			// nil tests of callback fields
+			type test struct {
+				b       *ssa.BasicBlock
+				nilSucc int
+				o       string
+				val     ssa.Value
+			}
+			var tests []test
+			for _, b := range fn.Blocks {
+				ifi, ok := b.Instrs[len(b.Instrs)-1].(*ssa.If)
+				if !ok {
+					continue
+				}
+				bo, ok := ifi.Cond.(*ssa.BinOp)
+				if !ok || bo.Op != token.EQL && bo.Op != token.NEQ {
+					continue
+				}
+				var other ssa.Value
+				if core.IsNilConst(bo.Y) {
+					other = bo.X
+				} else if core.IsNilConst(bo.X) {
+					other = bo.Y
+				} else {
+					continue
+				}
+				if o := cbField(other); o != "" {
+					ns := 0
+					if bo.Op == token.NEQ {
+						ns = 1
+					}
+					tests = append(tests, test{b, ns, o, other})
+				}
+			}
+			if len(tests) == 0 {
+				continue
+			}
+			for _, call := range core.Calls(fn) {
+				if core.CalleeFunc(call) != nil {
+					continue
+				}
+				o := cbField(call.Common().Value)
+				if o == "" {
+					continue
+				}
+				var g *test
+				for i := range tests {
+					t := &tests[i]
+					if t.o == o && t.b.Succs[1-t.nilSucc].Dominates(call.Block()) {
+						g = t
+					}
+				}
+				if g == nil {
+					continue
+				}
+				n++
+				T := g.b.Succs[1-g.nilSucc]
+				var nilEdges []core.Edge
+				for _, t := range tests {
+					if t.o == o {
+						nilEdges = append(nilEdges, core.Edge{B: t.b, Succ: t.nilSucc})
+					}
+				}
+				isNilEdge := func(b *ssa.BasicBlock, i int) bool {
+					for _, e := range nilEdges {
+						if e.B == b && e.Succ == i {
+							return true
+						}
+					}
+					return false
+				}
+				key := core.CallKey(fn, call)
+				bad := false
+				for _, h := range fn.Blocks {
+					ifi, ok := h.Instrs[len(h.Instrs)-1].(*ssa.If)
+					if !ok || h == g.b || !h.Dominates(g.b) {
+						continue
+					}
+					if bo, ok := ifi.Cond.(*ssa.BinOp); ok && isCode(bo.X) {
+						continue // dispatch on the packet kind
+					}
+					for si, sc := range h.Succs {
+						if isNilEdge(h, si) || sc == T {
+							continue
+						}
+						hits := core.ReachAvoiding(core.Point{B: sc, I: -1}, func(in ssa.Instruction) bool {
+							ret, ok := in.(*ssa.Return)
+							if !ok || in.Block().Comment == "recover" {
+								return false
+							}
+							rv := core.ReturnErr(fn, ret)
+							return rv == nil || core.MayBeNilError(rv, 0)
+						}, func(in ssa.Instruction) bool { return in.Block() == T }, core.WithoutEdges(nilEdges))
+						if len(hits) > 0 {
+							bad = true
+							c.R.Bad(rule, key, cfg, p.Pos(ifi.Cond.Pos()), sprintf("after this test a success exit at %s is reachable without calling %s although it is set: the packet is swallowed", p.Pos(hits[0].At.Pos()), o))
+							break
+						}
+					}
+					if bad {
+						break
+					}
+				}
+				if !bad {
+					c.R.Ok(rule, key, cfg, p.Pos(call.Pos()), o+" reached whenever set")
+				}
+			}
+		}
+		c.R.Floor(rule, cfg, n, 6)
+	}()
+
 	// ---------------- C03.nil
 	rule = "C03.nil"
 	c.R.Rule(rule, "in the receive loop every success exit is control-dependent on code == ServerCodeEndOfStream")
@@ -611,6 +742,7 @@ func runC03(c *Ctx) {
 		}
 	}()
 	ruleResetBefore(c, p, "C03.reset")
+	rulePacketRead(c, p, "C03.packet-read")
 	// read errors on the client's receive path reach only failure exits
 	c.R.Rule("C03.errors", "E6 (as C07.errors) restricted to package ch: every error of a read or decode on the receive path (packet code, exception, progress, profile, blocks) reaches only failure exits, so Do returns nil only for a stream that was read completely")
 	{
